@@ -49,8 +49,8 @@ ASSUMPTIONS = [
     "is the known finding D-C26a (witness FINDING_WITNESS; the generated stream stays out of it, known_cause recognises it). "
     "epsilon = 0 is accepted by the setter although its message demands a positive value; with it ordered events may be "
     "scheduled together and the round trip is not valid (kept out, as in C28)",
-    "everything lives in the global Environment (_convert_to_stn builds its mock-up and event actions there, so a problem of "
-    "another Environment cannot be converted at all)",
+    "a fifth of the problems live in an Environment of their own (fix D-C26b: _convert_to_stn built its mock-up and event "
+    "actions in the global Environment and failed with AssertionError on such problems)",
     "timed effects/goals are relative to GLOBAL_START; no state invariants (C27's finding), no bounded numeric types (C04), "
     "a condition interval is left-open only if the action has an effect at its lower end (C05's finding: the validator checks "
     "nothing for a left-open interval without a happening at its start); no simulated effects, no parameters",
@@ -603,6 +603,8 @@ def gen_case_raw(rng, big=False):
         good = [l for l in lits if holds_over(payload, hs, lo, hi, False, l) and holds(state_at(payload, hs, hi), l)]
         l = rng.choice(good) if good and rng.random() < 0.9 else rng.choice(lits)
         payload = with_sec(payload, "tgoal", [[qs(lo), qs(hi), "F", rng.choice(["F", "F", "T"]) if hi > lo else "F", l]])
+    if rng.random() < 0.2:
+        payload = [payload[0], payload[1], ["env", "F"]] + payload[2:]
     # an explicit epsilon, small w.r.t. the plan (see ASSUMPTIONS)
     if rng.random() < 0.25:
         gap = plan_gap(payload)
@@ -643,7 +645,7 @@ def known_cause(payload):
 
 
 def cases(rng, tier):
-    n = 2500 if tier == "quick" else 40000
+    n = 2000 if tier == "quick" else 25000
     for i in range(n):
         yield gen_case(rng, big=(tier != "quick" and i % 4 == 0))
 
@@ -724,6 +726,15 @@ def stats(payload, ans):
         t.append("timed-goals")
     if sec(payload, "eps")[0] != "-":
         t.append("explicit-epsilon")
+    if tp.fresh_env(payload):
+        t.append("own-environment")
+    # the hypotheses of C26_consistent / C26_back_keeps_order, as discharged by C26_auto_epsilon_separated (no declared
+    # epsilon) or C26_separated_of_gap (declared epsilon at most a third of the smallest gap) and by
+    # C26_forward_edges_respect_time (edges forward: part of the `tr` check)
+    eps = sec(payload, "eps")[0]
+    gap = None if eps == "-" else plan_gap(payload)
+    sep = "auto-epsilon" if eps == "-" else ("declared-le-gap/3" if gap is None or 3 * q(eps) <= gap else "NOT-GUARANTEED")
+    t.append("theorem-hypotheses:" + (sep if _get(ans, "tr") == ["ok"] else "EDGES-NOT-FORWARD"))
     cons = _get(ans, "cons") or []
     if any(lb == ub and a[0] == "s" and b[0] == "s" for a, lb, ub, b in cons):
         t.append("forced-simultaneous-pair")
@@ -755,12 +766,12 @@ def shrink(payload):
             except KeyError:
                 continue
             for j in range(len(items)):
-                na = [a[0]] + with_sec(a[1:], part, items[:j] + items[j + 1:]) if False else \
-                    [a[0], a[1]] + [([part] + items[:j] + items[j + 1:]) if (isinstance(s, list) and s and s[0] == part) else s
-                                    for s in a[2:]]
+                na = [a[0]] + with_sec(a[1:], part, items[:j] + items[j + 1:])
                 yield with_sec(payload, "acts", acts[:i] + [na] + acts[i + 1:])
     if sec(payload, "eps")[0] != "-":
         yield with_sec(payload, "eps", ["-"])
+    if tp.fresh_env(payload):
+        yield [s for s in payload if not (isinstance(s, list) and s and s[0] == "env")]
     if plan != sorted(plan, key=lambda e: q(e[0])):
         yield with_sec(payload, "plan", sorted(plan, key=lambda e: q(e[0])))
 
